@@ -327,6 +327,7 @@ type loopInfo struct {
 	phiSnap map[*ssa.Phi]Term // header phi values after havoc
 	varSnap []Term            // variant values at header
 	guard   Term
+	unknown bool // the contract has no clauses for this loop (weakest contract assumed)
 }
 
 type Enc struct {
